@@ -555,14 +555,9 @@ example : spec ⟨1, 2, 0, 0⟩ 0 [.allow ⟨.v4 0x0A000001, 0, 2⟩, .allow ⟨
 
 /-! ## tie: pinned source facts (regenerated from /repo by the extractor on every run) -/
 
-/-- the defaults are assigned field by field as modelled (`Opts.setDefault`): in particular the IPv6 default goes to `V6Mask` (D8), and `NewClientLimiter` applies them -/
+/-- the defaults are assigned field by field as modelled (`Opts.setDefault`) — in particular the IPv6 default goes to `V6Mask` (D8) —: tied by translation of the whole body of `setDefault` (`Limiter.setDefault_translated`); `NewClientLimiter` applies them -/
 theorem pins_defaults :
-    Facts.lim_setDefault_body = "{ if opts.Limit <= 0 { opts.Limit = 20 } if opts.Burst <= 0 { opts.Burst = int(opts.Limit) } if m := opts.V4Mask; m <= 0 || m > 32 { opts.V4Mask = 24 } if m := opts.V6Mask; m <= 0 || m > 128 { opts.V6Mask = 48 } }" ∧
-    Facts.lim_sd_v4_assign = "opts.V4Mask = 24" ∧
-    Facts.lim_sd_v6_assign = "opts.V6Mask = 48" ∧
-    Facts.lim_sd_v4_assign_count = 1 ∧
-    Facts.lim_sd_v6_assign_count = 1 ∧
-    Facts.lim_new_setDefault = "opts.setDefault()" := ⟨rfl, rfl, rfl, rfl, rfl, rfl⟩
+    Facts.lim_new_setDefault = "opts.setDefault()" := rfl
 
 /-- `mask` unmaps, then masks IPv4 with `V4Mask` and IPv6 with `V6Mask`; `AllowN` keys the table
     by the masked address, creates `rate.NewLimiter(Limit, Burst)` for a missing key, and — with
@@ -594,14 +589,12 @@ theorem pins_costs :
     Facts.lim_costFromCache = costFromCache ∧
     Facts.lim_costFromUpstream = costFromUpstream := ⟨rfl, rfl, rfl, rfl, rfl, rfl, rfl, rfl, rfl⟩
 
-/-- `resourceLimiter.AllowN` asks the global limiter first, then the client limiter; `initResourceLimiter` builds them from the configuration; `limiterAllowN` skips invalid addresses -/
+/-- `resourceLimiter.AllowN` asks the global limiter first, then the client limiter; `initResourceLimiter` builds them from the configuration (its tests `cfg.GlobalLimit > 0`, `cfg.Client.Limit > 0` are tied by translation: `Limiter.initGlobalCond_translated`, `Limiter.initClientCond_translated`); `limiterAllowN` skips invalid addresses -/
 theorem pins_resource :
     Facts.lim_res_allow_body = "{ now := time.Now() if l.global != nil { if !l.global.AllowN(now, n) { return errGlobalResLimit } } if l.cl != nil { if !l.cl.AllowN(addr, now, n) { return errClientResLimit } } return nil }" ∧
-    Facts.lim_init_global_cond = "cfg.GlobalLimit > 0" ∧
     Facts.lim_init_global_new = "l.global = rate.NewLimiter(rate.Limit(cfg.GlobalLimit), cfg.GlobalLimit)" ∧
-    Facts.lim_init_client_cond = "cfg.Client.Limit > 0" ∧
     Facts.lim_init_client_new = "l.cl = limiter.NewClientLimiter(limiter.ClientLimiterOpts{ Limit: float64(cfg.Client.Limit), Burst: cfg.Client.Burst, V4Mask: cfg.Client.V4Mask, V6Mask: cfg.Client.V6Mask, })" ∧
-    Facts.lim_router_allow_body = "{ if !addr.IsValid() { return nil } return r.limiter.AllowN(addr, n) }" := ⟨rfl, rfl, rfl, rfl, rfl, rfl⟩
+    Facts.lim_router_allow_body = "{ if !addr.IsValid() { return nil } return r.limiter.AllowN(addr, n) }" := ⟨rfl, rfl, rfl, rfl⟩
 
 /-- every admission point charges the *remote* address (D9: also the QUIC listener) with the cost of the table, and on refusal answers REFUSED / 503 / closes, before anything is handled -/
 theorem pins_admission :
